@@ -1,5 +1,5 @@
 // C16 harness: executes the real FEAT assembly code on one case per line (see FeatModel/Driver/C16.lean).
-//  scatter/gather/vscatter/vgather/banded : the real Scatter-/Gather-Axpy classes of LAFEM containers on arbitrary
+//  scatter/gather/vscatter/vgather/banded/bgather : the real Scatter-/Gather-Axpy classes of LAFEM containers on arbitrary
 //                                           patterns, index maps and local matrices (one scatter object, many calls)
 //  asm     : the real SymbolicAssembler (through a stand-in space with arbitrary DOF tables) + real CSR scatter
 //  fe      : real assemblers on real meshes/spaces (all routes, everything the oracle needs)  -> fe.hpp
@@ -172,6 +172,22 @@ static void handle(const verif::Tokens& t, std::ostream& o)
       }
     }
     o << "V "; show_q(o, m.val(), Index(vals.size()));
+  }
+  else if(op == "bgather")
+  {
+    Index r = c.idx(), cc = c.idx();
+    auto offs = rdidx(c); auto vals = rdqlist(c);
+    auto calls = read_calls(c);
+    auto doffs = to_dv(offs); auto dv = to_dv(vals);
+    LAFEM::SparseMatrixBanded<Q, Index> m(r, cc, dv, doffs);
+    LAFEM::SparseMatrixBanded<Q, Index>::GatherAxpy ga(m);
+    o << "L " << calls.size();
+    for(const auto& k : calls)
+    {
+      LocMat lm(k.vals, int(k.cols.size()));
+      ga(lm, ListMap(k.rows), ListMap(k.cols), k.alpha);
+      o << " "; show_qv(o, lm.v);
+    }
   }
   else if(op == "asm")
   {
